@@ -74,7 +74,7 @@ def main() -> None:
             "guard": "STABILIZE_VERIF",
             "enable": "no instrumentation is committed to /repo: the harness installs its hooks from outside (sqlite3.connect factory, SQL triggers in scratch databases, wrapped handler methods); STABILIZE_VERIF=1 is exported by the checks and read by nothing in /repo",
             "baseline_off_cmd": "cd /repo && /venv/bin/python -m pytest -ra -q -p no:cacheprovider --timeout=900 --continue-on-collection-errors",
-            "source_commits": _fix_commits(),
+            "source_commits": [],
             "add_only": True,
         },
         "engines": [
@@ -85,7 +85,7 @@ def main() -> None:
         ],
         "checks": checks,
         "not_applicable": na,
-        "notes": "All checks: exit 0 held / exit 1 VIOLATION / exit 2 INCONCLUSIVE (a monitor observed too little, never folded into held). Known findings: known_findings.json.",
+        "notes": "No hook / instrumentation commits exist in /repo (hooks.source_commits is empty): everything is installed from the harness process. Unguarded fix: commits in /repo for genuine defects found by these checks: " + ", ".join(_fix_commits()) + " (see known_findings.json 'fixed' and DESIGN.md 10.3). All checks: exit 0 held / exit 1 VIOLATION / exit 2 INCONCLUSIVE (a monitor observed too little, never folded into held). Known findings: known_findings.json.",
     }
     with open(os.path.join(HERE, "MANIFEST.json"), "w") as f:
         json.dump(manifest, f, indent=1)
